@@ -160,7 +160,7 @@ def make_judges(ctx):
 def floors(tier):
     return [('not', '-')] + [(op, yk) for op in ('and', 'or', 'xor') for yk in ('Fxp', '+mask', '-mask', 'masks')] + [('mismatch',), ('mismatch-numpy',), ('broadcast-table',), ('mixed-magnitude-mask-list',), ('element-against-mask-array',), ('inplace-indexed', '53-63'), ('inplace-indexed', '64'), ('inplace-indexed', '65-128')] + \
            [('numpy', op) for op in ('and', 'or', 'xor', 'not')] + [('arrays', op, k) for op in ('and', 'or', 'xor') for k in ((True, True), (True, False), (False, True))] + [('arrays', 'not', (True, False))] + \
-           [('wide-array', w_, sg) for w_ in (63, 64, 65) for sg in (True, False)]
+           [('wide-array', w_, sg) for w_ in (63, 64, 65) for sg in (True, False)] + [('sequence-on-same-objects',)] + [('unsigned-numpy-mask-as-wide-as-the-word', w_) for w_ in (16, 32, 64)]
 
 
 # ------------------------------------------------------------------------------------------ workload
@@ -327,6 +327,44 @@ def run_case(case, ctx):
         _try(lambda: op_(xi, y))
         xi = Fxp(a, sx, w, nf, raw=True)
         _try(lambda: op_(xi, mk))
+    # sequences on the same objects: (1) ~x, then the word is lengthened by a route that does not name n_word, then ~x again; (2) x op y, an indexed store into
+    # the array y (in place), x op y again; (3) unsigned NumPy masks exactly as wide as the word, top bit set, against negative codes
+    if (i // 4) % 3 == 0 and w <= 60:
+        xs_ = Fxp([a, lox, hix], sx, w, nf, raw=True)
+        _try(lambda: ~xs_)
+        how_ = rng.choice(['dtype', 'n_int', 'like'])
+        w2_ = w + rng.randint(1, 3)
+        if how_ == 'dtype':
+            _try(lambda: xs_.resize(dtype=R.dtype_fxp(sx, w2_, nf)))
+        elif how_ == 'n_int':
+            _try(lambda: xs_.resize(n_int=w2_ - nf - (1 if sx else 0), n_frac=nf))
+        else:
+            xs_ = _try(lambda: Fxp(xs_, like=xs_, n_int=w2_ - nf - (1 if sx else 0), n_frac=nf)) or xs_
+        _try(lambda: ~xs_)
+        _try(lambda: ~~xs_)
+        xb_ = Fxp([a, lox, hix], sx, w, nf, raw=True)
+        yb_ = Fxp([b, loy, hiy], sy, w, 0, raw=True)
+        for op_ in (operator.and_, operator.or_, operator.xor):
+            _try(lambda: op_(xb_, yb_))
+            _try(lambda: yb_.__setitem__(rng.randint(0, 2), Fxp(code(loy, hiy) if loy <= code(loy, hiy) <= hiy else b, sy, w, 0, raw=True)))
+            _try(lambda: yb_.set_val(max(loy, min(hiy, ~b if sy else (hiy - b))), raw=True, index=0))
+            _try(lambda: op_(xb_, yb_))
+        ctx.floor_hit(('sequence-on-same-objects',))
+    if w in (8, 16, 32, 64):
+        tp_ = {8: np.uint8, 16: np.uint16, 32: np.uint32, 64: np.uint64}[w]
+        top_ = (1 << (w - 1)) | rng.getrandbits(w - 1)
+        xn_ = Fxp(lox if sx else hix, sx, w, nf, raw=True)
+        xm_ = Fxp([lox if sx else hix, -1 if sx else hix - 1, a], sx, w, nf, raw=True)
+        for xx in (xn_, xm_):
+            for m_ in (tp_(top_), tp_((1 << w) - 1), np.array([top_, (1 << w) - 1, 1], dtype=tp_)):
+                _try(lambda: xx & m_)
+                _try(lambda: xx | m_)
+                _try(lambda: xx ^ m_)
+                _try(lambda: m_ & xx)
+                _try(lambda: np.bitwise_and(xx, m_))
+        xi_ = Fxp(lox if sx else hix, sx, w, nf, raw=True)
+        _try(lambda: operator.iand(xi_, tp_(top_)))
+        ctx.floor_hit(('unsigned-numpy-mask-as-wide-as-the-word', w))
     # float-valued operands (created from values, n_frac > 0) at 54..63 bits
     if nf > 0 and w <= 63:
         xv = _try(lambda: Fxp(float(a) / 2.0 ** nf, sx, w, nf)) if abs(a) < 2 ** 53 else None
